@@ -105,7 +105,7 @@ def unionTyped : GoType → Bool
   | _ => false
 
 /-- the element type is `byte` itself -/
-def isU8 : GoType → Bool
+def isU8n : GoType → Bool
   | .uint 8 => true
   | _ => false
 
@@ -146,7 +146,7 @@ def bareCodec : Nat → GoType → Bool → Option Codec
     | .float64 => some (.double oe)
     | .string => some (.string oe)
     | .slice e =>
-      if isU8 e then some (.bytes oe)
+      if isU8n e then some (.bytes oe)
       else (fieldCodec n e false).map (.array · oe)
     | .map k v => if isStr k then (fieldCodec n v false).map (.map · oe) else none
     | .ptr e => (bareCodec n e false).map .pointer
@@ -212,8 +212,8 @@ def Typed : Nat → GoType → GoVal → Prop
     | .float32, .f32 b => ¬ SNaN32 b
     | .float64, .f64 _ => True
     | .string, .str _ => True
-    | .slice e, .bytes _ => isU8 e = true
-    | .slice e, .slice items => isU8 e = false ∧ ∀ x ∈ items, Typed n e x
+    | .slice e, .bytes _ => isU8n e = true
+    | .slice e, .slice items => isU8n e = false ∧ ∀ x ∈ items, Typed n e x
     | .map _ v, .map _ ks vs => ks.length = vs.length ∧ ∀ x ∈ vs, Typed n v x
     | .ptr _, .ptr none => True
     | .ptr e, .ptr (some x) => Typed n e x
@@ -298,7 +298,7 @@ theorem ptrClause_emptyChain (d : Nat) (e : GoType) (x : GoVal) (h : e.collChain
 def IsColl (c : Codec) : Prop := (∃ i o, Codec.stripPtr c = .array i o) ∨ (∃ v o, Codec.stripPtr c = .map v o)
 
 theorem bareCodec_slice (n : Nat) (e : GoType) (oe : Bool) :
-    bareCodec (n + 1) (.slice e) oe = if isU8 e then some (.bytes oe) else (fieldCodec n e false).map (.array · oe) := by
+    bareCodec (n + 1) (.slice e) oe = if isU8n e then some (.bytes oe) else (fieldCodec n e false).map (.array · oe) := by
   simp only [bareCodec]
 theorem bareCodec_map (n : Nat) (k v : GoType) (oe : Bool) :
     bareCodec (n + 1) (.map k v) oe = if isStr k then (fieldCodec n v false).map (.map · oe) else none := by
@@ -314,26 +314,26 @@ theorem bareCodec_struct (n : Nat) (nm pkg : String) (fs : List GoField) (oe : B
       else none := by
   simp only [bareCodec]
 
-theorem matches_u8 (e : GoType) : (e matches .uint 8) = isU8 e := by
-  unfold isU8; rfl
+theorem matches_u8 (e : GoType) : (e matches .uint 8) = isU8n e := by
+  unfold isU8n; rfl
 
-theorem isU8_uint (w : Nat) : isU8 (.uint w) = decide (w = 8) := by
-  simp only [isU8]
+theorem isU8_uint (w : Nat) : isU8n (.uint w) = decide (w = 8) := by
+  simp only [isU8n]
   by_cases h : w = 8
   · subst h; rfl
   · simp [h]
 
-theorem isU8_eq {e : GoType} (h : isU8 e = true) : e = .uint 8 := by
-  cases e <;> try (simp [isU8] at h; done)
+theorem isU8_eq {e : GoType} (h : isU8n e = true) : e = .uint 8 := by
+  cases e <;> try (simp [isU8n] at h; done)
   rename_i w
   rw [isU8_uint] at h
   simp at h
   subst h; rfl
 
-theorem collChain_slice (e : GoType) : (GoType.slice e).collChain = !isU8 e.strip := by
-  simp only [GoType.collChain]; unfold isU8; rfl
+theorem collChain_slice (e : GoType) : (GoType.slice e).collChain = !isU8n e.strip := by
+  simp only [GoType.collChain]; unfold isU8n; rfl
 
-theorem not_u8_strip {e : GoType} (h : isU8 e = false) (hs : e.strip = e) : (e.strip matches .uint 8) = false := by
+theorem not_u8_strip {e : GoType} (h : isU8n e = false) (hs : e.strip = e) : (e.strip matches .uint 8) = false := by
   rw [hs, matches_u8, h]
 
 /-- a type is a pointer chain to a slice or map exactly when its codec is a pointer chain to an array
@@ -349,7 +349,7 @@ theorem bareCodec_coll : ∀ (N : Nat) (e : GoType) (oe : Bool) (c : Codec), bar
     cases e
     case slice e' =>
       rw [bareCodec_slice] at h
-      by_cases hb : isU8 e' = true
+      by_cases hb : isU8n e' = true
       · simp only [hb, if_true, Option.some.injEq] at h; subst h
         have := isU8_eq hb
         subst this
